@@ -517,6 +517,9 @@ pub fn run_c08(tier: Tier) -> i32 {
     if qs_resolved.load(Ordering::Relaxed) == 0 {
         rep.machinery("vacuous: horizon valuation never differed from stand-pat");
     }
+    // (3d) mates and stalemates exactly at the horizon (shared with C11)
+    let hz8 = horizon_terminals(&rep, tier, &[], &mut fams, 3);
+    ctx.searches.fetch_add(hz8, Ordering::Relaxed);
     // (4) forced mates from retrograde tables
     let t0 = Instant::now();
     let max_n: i8 = if tier == Tier::Quick { 2 } else { 3 };
@@ -580,6 +583,78 @@ pub fn run_c08(tier: Tier) -> i32 {
 
 // =======================================================================================
 // C11
+
+/// Terminal positions AT THE HORIZON of a search: every kind of mate and stalemate (bare kings,
+/// blocked pawns, pinned pieces with many pseudo-legal moves) is reached by `go depth 1
+/// searchmoves m` from a predecessor obtained by taking back a move; the score must be the
+/// terminal one (draw for stalemate, mate 1 for mate) — the evaluator's own terminal branch is
+/// only half of the decision, the search has to recognise the position as move-less first.
+/// Returns the number of searches.
+fn horizon_terminals(rep: &Reporter, tier: Tier, terms: &[Pos], fams: &mut Vec<Value>, share: u64) -> u64 {
+    let t0 = Instant::now();
+    let mut horizon_terms: Vec<Pos> = terms.iter().filter(|p| p.piece_count() <= 8).cloned().collect();
+    for sig in ["KRkb", "KRkn", "KQkr", "KQkq", "KQkb", "KQkn", "KBkb", "KRkr", "KPkp", "KQkp", "KRRkb", "KRBkb", "KQkbb", "KQkrb", "KRNkr"] {
+        let fam = Material::new(sig);
+        let want = (if tier == Tier::Quick { 300 } else { 20_000 }) / share as usize;
+        let five = sig.len() >= 5;
+        let stride = if five { if tier == Tier::Quick { 1_009 } else { 53 } } else if tier == Tier::Quick { 7 } else { 1 };
+        let found = Mutex::new(Vec::new());
+        for_family(&Strided(&fam, stride), &|p| {
+            if !p.has_legal_move() {
+                let mut f = found.lock().unwrap();
+                if f.len() < want {
+                    f.push(p.clone());
+                }
+            }
+        });
+        let mut f = found.into_inner().unwrap();
+        f.sort_by_key(|p| p.key());
+        horizon_terms.extend(f);
+    }
+    let hz_n = AtomicU64::new(0);
+    let hz_pinned = AtomicU64::new(0);
+    let hz_stale = AtomicU64::new(0);
+    par_map_chunk(&horizon_terms, 8, |t| {
+        let preds = retract_into(t);
+        if preds.is_empty() {
+            return;
+        }
+        let mate = t.in_check(t.stm);
+        let many = t.pseudo_legal().len() > 8;
+        let mut sess = Session::new(false);
+        // at most three predecessors per terminal position, spread over the list
+        let step = (preds.len() / 3).max(1);
+        for (p, m) in preds.iter().step_by(step).take(3) {
+            for q in [p.clone(), p.flip()] {
+                let mu = if q.stm == p.stm { m.uci() } else { format!("{}{}", sq_name(m.from ^ 56), sq_name(m.to ^ 56)) };
+                let out = search_depth(&mut sess, &q, &[], 1, &format!(" searchmoves {}", mu));
+                hz_n.fetch_add(1, Ordering::Relaxed);
+                if many {
+                    hz_pinned.fetch_add(1, Ordering::Relaxed);
+                }
+                if !mate {
+                    hz_stale.fetch_add(1, Ordering::Relaxed);
+                }
+                let case = |extra: Value| json!({"kind": "horizon_terminal", "fen": q.to_fen(), "searchmove": mu, "depth": 1, "detail": extra});
+                if let Some(pr) = &out.problem {
+                    rep.report(format!("no_answer:{}", short(pr)), case(json!({"problem": pr})));
+                    return;
+                }
+                let expected = if mate { Score::Mate { mate_in: 1 } } else { verif::score_from_value(-verif::draw_score(), &board_of(&q)) };
+                if out.score != Some(expected) {
+                    let sig = if mate { "mate_at_the_horizon_not_scored_as_mate_1" } else if many { "stalemate_at_the_horizon_not_scored_as_draw:more_than_8_pseudo_legal_moves" } else { "stalemate_at_the_horizon_not_scored_as_draw" };
+                    rep.report(sig.to_string(), case(json!({"expected": score_text(&expected), "actual": score_json(&out.score), "terminal_position": t.to_fen()})));
+                }
+            }
+        }
+        sess.quit();
+    });
+    fams.push(json!({"family": "terminal positions at the horizon: go depth 1 searchmoves m from predecessors obtained by taking back a move (and flips)", "terminal_positions": horizon_terms.len(), "searches": hz_n.load(Ordering::Relaxed), "searches_into_stalemates": hz_stale.load(Ordering::Relaxed), "searches_into_terminals_with_more_than_8_pseudo_legal_moves": hz_pinned.load(Ordering::Relaxed), "secs": t0.elapsed().as_secs_f64()}));
+    if hz_pinned.load(Ordering::Relaxed) == 0 || hz_stale.load(Ordering::Relaxed) == 0 {
+        rep.machinery("vacuous: horizon family reached no stalemate or no terminal with pinned pieces");
+    }
+    hz_n.load(Ordering::Relaxed)
+}
 
 /// predecessors of a move-less position `t`: the side that is NOT to move in `t` takes back a move
 /// of one of its pieces (king, queen, rook, bishop, knight; also putting back a captured queen,
@@ -751,73 +826,7 @@ pub fn run_c11(tier: Tier) -> i32 {
     });
     let n_mates = terms.iter().filter(|p| p.in_check(p.stm)).count();
     fams.push(json!({"family": "terminal positions x full-move {1,2,50,1000,2400}", "positions": terms.len(), "mates": n_mates, "stalemates": terms.len() - n_mates, "evaluations": term_n.load(Ordering::Relaxed), "secs": t0.elapsed().as_secs_f64()}));
-    // terminal positions AT THE HORIZON of a search: every kind of mate and stalemate (bare kings,
-    // blocked pawns, pinned pieces with many pseudo-legal moves) is reached by `go depth 1
-    // searchmoves m` from a predecessor obtained by taking back a move; the score must be the
-    // terminal one (draw for stalemate, mate 1 for mate) — the evaluator's own terminal branch is
-    // only half of the decision, the search has to recognise the position as move-less first
-    let t0 = Instant::now();
-    let mut horizon_terms: Vec<Pos> = terms.iter().filter(|p| p.piece_count() <= 8).cloned().collect();
-    for sig in ["KRkb", "KRkn", "KQkr", "KQkq", "KQkb", "KQkn", "KBkb", "KRkr", "KPkp", "KQkp", "KRRkb", "KRBkb", "KQkbb", "KQkrb", "KRNkr"] {
-        let fam = Material::new(sig);
-        let want = if tier == Tier::Quick { 300 } else { 20_000 };
-        let five = sig.len() >= 5;
-        let stride = if five { if tier == Tier::Quick { 1_009 } else { 53 } } else if tier == Tier::Quick { 7 } else { 1 };
-        let found = Mutex::new(Vec::new());
-        for_family(&Strided(&fam, stride), &|p| {
-            if !p.has_legal_move() {
-                let mut f = found.lock().unwrap();
-                if f.len() < want {
-                    f.push(p.clone());
-                }
-            }
-        });
-        let mut f = found.into_inner().unwrap();
-        f.sort_by_key(|p| p.key());
-        horizon_terms.extend(f);
-    }
-    let hz_n = AtomicU64::new(0);
-    let hz_pinned = AtomicU64::new(0);
-    let hz_stale = AtomicU64::new(0);
-    par_map_chunk(&horizon_terms, 8, |t| {
-        let preds = retract_into(t);
-        if preds.is_empty() {
-            return;
-        }
-        let mate = t.in_check(t.stm);
-        let many = t.pseudo_legal().len() > 8;
-        let mut sess = Session::new(false);
-        // at most three predecessors per terminal position, spread over the list
-        let step = (preds.len() / 3).max(1);
-        for (p, m) in preds.iter().step_by(step).take(3) {
-            for q in [p.clone(), p.flip()] {
-                let mu = if q.stm == p.stm { m.uci() } else { format!("{}{}", sq_name(m.from ^ 56), sq_name(m.to ^ 56)) };
-                let out = search_depth(&mut sess, &q, &[], 1, &format!(" searchmoves {}", mu));
-                hz_n.fetch_add(1, Ordering::Relaxed);
-                if many {
-                    hz_pinned.fetch_add(1, Ordering::Relaxed);
-                }
-                if !mate {
-                    hz_stale.fetch_add(1, Ordering::Relaxed);
-                }
-                let case = |extra: Value| json!({"kind": "horizon_terminal", "fen": q.to_fen(), "searchmove": mu, "depth": 1, "detail": extra});
-                if let Some(pr) = &out.problem {
-                    rep.report(format!("no_answer:{}", short(pr)), case(json!({"problem": pr})));
-                    return;
-                }
-                let expected = if mate { Score::Mate { mate_in: 1 } } else { verif::score_from_value(-verif::draw_score(), &board_of(&q)) };
-                if out.score != Some(expected) {
-                    let sig = if mate { "mate_at_the_horizon_not_scored_as_mate_1" } else if many { "stalemate_at_the_horizon_not_scored_as_draw:more_than_8_pseudo_legal_moves" } else { "stalemate_at_the_horizon_not_scored_as_draw" };
-                    rep.report(sig.to_string(), case(json!({"expected": score_text(&expected), "actual": score_json(&out.score), "terminal_position": t.to_fen()})));
-                }
-            }
-        }
-        sess.quit();
-    });
-    fams.push(json!({"family": "terminal positions at the horizon: go depth 1 searchmoves m from predecessors obtained by taking back a move (and flips)", "terminal_positions": horizon_terms.len(), "searches": hz_n.load(Ordering::Relaxed), "searches_into_stalemates": hz_stale.load(Ordering::Relaxed), "searches_into_terminals_with_more_than_8_pseudo_legal_moves": hz_pinned.load(Ordering::Relaxed), "secs": t0.elapsed().as_secs_f64()}));
-    if hz_pinned.load(Ordering::Relaxed) == 0 || hz_stale.load(Ordering::Relaxed) == 0 {
-        rep.machinery("vacuous: horizon family reached no stalemate or no terminal with pinned pieces");
-    }
+    let hz_searches = horizon_terminals(&rep, tier, &terms, &mut fams, 1);
     // search symmetry
     let t0 = Instant::now();
     let collect = Mutex::new(Vec::new());
@@ -858,7 +867,7 @@ pub fn run_c11(tier: Tier) -> i32 {
 
     let mut cov = Coverage::new();
     cov.states = static_n.load(Ordering::Relaxed) + terms.len() as u64;
-    cov.transitions = static_n.load(Ordering::Relaxed) * 2 + term_n.load(Ordering::Relaxed) + searches.load(Ordering::Relaxed) + hz_n.load(Ordering::Relaxed);
+    cov.transitions = static_n.load(Ordering::Relaxed) * 2 + term_n.load(Ordering::Relaxed) + searches.load(Ordering::Relaxed) + hz_searches;
     cov.traces_validated = cov.transitions;
     cov.set("families", json!(fams));
     cov.samples = vec![json!({"fen": roots[1].to_fen(), "flipped": roots[1].flip().to_fen(), "oracle": "static_eval(P) == -static_eval(flip P); Score(P,d) == Score(flip P,d)"})];
@@ -1475,7 +1484,7 @@ pub fn replay(id: &str, case: &Value) -> i32 {
             }
             sess.quit();
         }
-        ("C11", "horizon_terminal") => {
+        ("C11", "horizon_terminal") | ("C08", "horizon_terminal") => {
             let mu = case["searchmove"].as_str().unwrap_or("").to_string();
             let mut sess = Session::new(false);
             let out = search_depth(&mut sess, &p, &[], 1, &format!(" searchmoves {}", mu));
